@@ -84,14 +84,14 @@ theorem ihFilter {l p n p1} (h : parseFilter (N := N) tbl f l p = .ok (n, p1)) :
 theorem ihPis {l r p n p1} (h : projectIfSlice (N := N) tbl f l r p = .ok (n, p1)) : R tbl (.pis l r p) (.node n p1) :=
   ih _ _ (by simp only [run, h, toOutN])
 
-theorem step_expr {bp p n p2} (h : parseExpression (N := N) tbl (f + 1) bp p = .ok (n, p2)) : R tbl (.expr bp p) (.node n p2) := by
+theorem inv_expr {bp p n p2} (h : parseExpression (N := N) tbl (f + 1) bp p = .ok (n, p2)) : R tbl (.expr bp p) (.node n p2) := by
   simp only [parseExpression] at h
   obtain ⟨tok, htok, h⟩ := bind_ok h
   obtain ⟨⟨left, p1⟩, hnud, h⟩ := bind_ok h
   obtain ⟨rest, hafter⟩ := curTok_ok htok
   exact R.expr hafter (ihNud tbl f ih hnud) (ihLoop tbl f ih h)
 
-theorem step_loop {bp l p n p2} (h : ledLoop (N := N) tbl (f + 1) bp l p = .ok (n, p2)) : R tbl (.loop bp l p) (.node n p2) := by
+theorem inv_loop {bp l p n p2} (h : ledLoop (N := N) tbl (f + 1) bp l p = .ok (n, p2)) : R tbl (.loop bp l p) (.node n p2) := by
   simp only [ledLoop] at h
   obtain ⟨cur, hcur, h⟩ := bind_ok h
   obtain ⟨t, rest, hafter, rfl⟩ := cur_ok hcur
@@ -105,7 +105,7 @@ theorem step_loop {bp l p n p2} (h : ledLoop (N := N) tbl (f + 1) bp l p = .ok (
     obtain ⟨rfl, rfl⟩ := h
     exact R.stop hafter hnlt
 
-theorem step_dot {bp p n p2} (h : parseDotRHS (N := N) tbl (f + 1) bp p = .ok (n, p2)) : R tbl (.dot bp p) (.node n p2) := by
+theorem inv_dot {bp p n p2} (h : parseDotRHS (N := N) tbl (f + 1) bp p = .ok (n, p2)) : R tbl (.dot bp p) (.node n p2) := by
   simp only [parseDotRHS] at h
   obtain ⟨la, hcur, h⟩ := bind_ok h
   obtain ⟨t, rest, hafter, rfl⟩ := cur_ok hcur
@@ -122,7 +122,7 @@ theorem step_dot {bp p n p2} (h : parseDotRHS (N := N) tbl (f + 1) bp p = .ok (n
       · rename_i hlb; exact R.dotHash hafter hlb (ihMsh tbl f ih h)
       · unfold PState.syntaxError at h; rw [hafter] at h; cases h
 
-theorem step_prhs {bp p n p2} (h : parseProjectionRHS (N := N) tbl (f + 1) bp p = .ok (n, p2)) : R tbl (.prhs bp p) (.node n p2) := by
+theorem inv_prhs {bp p n p2} (h : parseProjectionRHS (N := N) tbl (f + 1) bp p = .ok (n, p2)) : R tbl (.prhs bp p) (.node n p2) := by
   simp only [parseProjectionRHS] at h
   obtain ⟨la, hcur, h⟩ := bind_ok h
   obtain ⟨t, rest, hafter, rfl⟩ := cur_ok hcur
@@ -141,7 +141,7 @@ theorem step_prhs {bp p n p2} (h : parseProjectionRHS (N := N) tbl (f + 1) bp p 
         · rename_i hd; exact R.prhsDot hafter hnlt hd (ihDot tbl f ih h)
         · unfold PState.syntaxError at h; rw [hafter] at h; cases h
 
-theorem step_pis {l r p n p2} (h : projectIfSlice (N := N) tbl (f + 1) l r p = .ok (n, p2)) : R tbl (.pis l r p) (.node n p2) := by
+theorem inv_pis {l r p n p2} (h : projectIfSlice (N := N) tbl (f + 1) l r p = .ok (n, p2)) : R tbl (.pis l r p) (.node n p2) := by
   simp only [projectIfSlice] at h
   split at h
   · rename_i hs
@@ -154,7 +154,7 @@ theorem step_pis {l r p n p2} (h : projectIfSlice (N := N) tbl (f + 1) l r p = .
     obtain ⟨rfl, rfl⟩ := h
     exact R.pisIndex (by simpa using hs)
 
-theorem step_filter {l p n p3} (h : parseFilter (N := N) tbl (f + 1) l p = .ok (n, p3)) : R tbl (.filter l p) (.node n p3) := by
+theorem inv_filter {l p n p3} (h : parseFilter (N := N) tbl (f + 1) l p = .ok (n, p3)) : R tbl (.filter l p) (.node n p3) := by
   simp only [parseFilter] at h
   obtain ⟨⟨cond, p1⟩, hc, h⟩ := bind_ok h
   obtain ⟨p2, hexp, h⟩ := bind_ok h
@@ -177,7 +177,7 @@ theorem step_filter {l p n p3} (h : parseFilter (N := N) tbl (f + 1) l p = .ok (
     obtain ⟨rfl, rfl⟩ := h
     exact R.filterRhs (ihExpr tbl f ih hc) hadv hrb hnfl (ihPrhs tbl f ih hr)
 
-theorem step_msl {p acc n p3} (h : parseMultiSelectList (N := N) tbl (f + 1) p acc = .ok (n, p3)) : R tbl (.msl p acc) (.node n p3) := by
+theorem inv_msl {p acc n p3} (h : parseMultiSelectList (N := N) tbl (f + 1) p acc = .ok (n, p3)) : R tbl (.msl p acc) (.node n p3) := by
   simp only [parseMultiSelectList] at h
   obtain ⟨⟨e, p1⟩, he, h⟩ := bind_ok h
   obtain ⟨cur, hcur, h⟩ := bind_ok h
@@ -197,7 +197,7 @@ theorem step_msl {p acc n p3} (h : parseMultiSelectList (N := N) tbl (f + 1) p a
     obtain ⟨rfl, rfl⟩ := hafter'
     exact R.mslMore (ihExpr tbl f ih he) hafter hc (ihMsl tbl f ih h)
 
-theorem step_msh {p acc n p3} (h : parseMultiSelectHash (N := N) tbl (f + 1) p acc = .ok (n, p3)) : R tbl (.msh p acc) (.node n p3) := by
+theorem inv_msh {p acc n p3} (h : parseMultiSelectHash (N := N) tbl (f + 1) p acc = .ok (n, p3)) : R tbl (.msh p acc) (.node n p3) := by
   simp only [parseMultiSelectHash] at h
   obtain ⟨k, hk, h⟩ := bind_ok h
   obtain ⟨rest0, hafter0⟩ := curTok_ok hk
@@ -223,7 +223,7 @@ theorem step_msh {p acc n p3} (h : parseMultiSelectHash (N := N) tbl (f + 1) p a
       · unfold PState.syntaxError at h; rw [hafter2] at h; cases h
   · unfold PState.syntaxError at h; rw [hafter0] at h; cases h
 
-theorem step_args {p a p3} (h : parseArgs (N := N) tbl (f + 1) p = .ok (a, p3)) : R tbl (.args p) (.args a p3) := by
+theorem inv_args {p a p3} (h : parseArgs (N := N) tbl (f + 1) p = .ok (a, p3)) : R tbl (.args p) (.args a p3) := by
   simp only [parseArgs] at h
   obtain ⟨cur, hcur, h⟩ := bind_ok h
   obtain ⟨t0, rest0, hafter0, rfl⟩ := cur_ok hcur
@@ -282,7 +282,7 @@ theorem step_args {p a p3} (h : parseArgs (N := N) tbl (f + 1) p = .ok (a, p3)) 
         obtain ⟨rfl, rfl⟩ := h
         exact R.argPlainMore hafter0 href (ihExpr tbl f ih he) hafter1 hcm hafter2 hnr (ihArgs tbl f ih has)
 
-theorem step_nud {tok p n p3} (h : nud (N := N) tbl (f + 1) tok p = .ok (n, p3)) : R tbl (.nud tok p) (.node n p3) := by
+theorem inv_nud {tok p n p3} (h : nud (N := N) tbl (f + 1) tok p = .ok (n, p3)) : R tbl (.nud tok p) (.node n p3) := by
   cases hty : tok.ty <;> simp only [nud, hty] at h
   case jsonLiteral =>
     split at h
@@ -380,7 +380,7 @@ theorem step_nud {tok p n p3} (h : nud (N := N) tbl (f + 1) tok p = .ok (n, p3))
     exact R.nudParen hty (ihExpr tbl f ih he) hafter hrp
   all_goals cases h
 
-theorem cmp_step {ty : TokType} {op : Cmp} (hop : Cmp.ofTok ty = some op) {l : Node N} {p n p3}
+theorem inv_cmp {ty : TokType} {op : Cmp} (hop : Cmp.ofTok ty = some op) {l : Node N} {p n p3}
     (h : (do let (right, p) ← parseExpression (N := N) tbl f ((tbl.ledCmp.lookup ty).getD 0) p
              (.ok (.cmp op l right, p) : Res (Node N × PState))) = .ok (n, p3)) :
     R tbl (.led ty l p) (.node n p3) := by
@@ -389,7 +389,7 @@ theorem cmp_step {ty : TokType} {op : Cmp} (hop : Cmp.ofTok ty = some op) {l : N
   obtain ⟨rfl, rfl⟩ := h
   exact R.ledCmp hop (ihExpr tbl f ih hr)
 
-theorem step_led {ty l p n p3} (h : led (N := N) tbl (f + 1) ty l p = .ok (n, p3)) : R tbl (.led ty l p) (.node n p3) := by
+theorem inv_led {ty l p n p3} (h : led (N := N) tbl (f + 1) ty l p = .ok (n, p3)) : R tbl (.led ty l p) (.node n p3) := by
   cases ty <;> (try simp only [led, Cmp.ofTok] at h)
   case dot =>
     obtain ⟨cur, hcur, h⟩ := bind_ok h
@@ -469,12 +469,12 @@ theorem step_led {ty l p n p3} (h : led (N := N) tbl (f + 1) ty l p = .ok (n, p3
       · cases h
     · cases h
     · cases h
-  case eq => exact cmp_step tbl f ih rfl h
-  case ne => exact cmp_step tbl f ih rfl h
-  case lt => exact cmp_step tbl f ih rfl h
-  case lte => exact cmp_step tbl f ih rfl h
-  case gt => exact cmp_step tbl f ih rfl h
-  case gte => exact cmp_step tbl f ih rfl h
+  case eq => exact inv_cmp tbl f ih rfl h
+  case ne => exact inv_cmp tbl f ih rfl h
+  case lt => exact inv_cmp tbl f ih rfl h
+  case lte => exact inv_cmp tbl f ih rfl h
+  case gt => exact inv_cmp tbl f ih rfl h
+  case gte => exact inv_cmp tbl f ih rfl h
   all_goals (unfold PState.syntaxError at h; split at h <;> cases h)
 
 end Steps
@@ -491,17 +491,17 @@ theorem R_complete (tbl : ParserTable) : ∀ (fuel : Nat) (c : Call N) (o : Out 
   | succ f ih =>
     intro c o h
     cases c with
-    | expr bp p => obtain ⟨n, p1, hr, rfl⟩ := toOutN_ok_inv h; exact step_expr tbl f ih hr
-    | loop bp l p => obtain ⟨n, p1, hr, rfl⟩ := toOutN_ok_inv h; exact step_loop tbl f ih hr
-    | nud t p => obtain ⟨n, p1, hr, rfl⟩ := toOutN_ok_inv h; exact step_nud tbl f ih hr
-    | led ty l p => obtain ⟨n, p1, hr, rfl⟩ := toOutN_ok_inv h; exact step_led tbl f ih hr
-    | dot bp p => obtain ⟨n, p1, hr, rfl⟩ := toOutN_ok_inv h; exact step_dot tbl f ih hr
-    | msl p acc => obtain ⟨n, p1, hr, rfl⟩ := toOutN_ok_inv h; exact step_msl tbl f ih hr
-    | msh p acc => obtain ⟨n, p1, hr, rfl⟩ := toOutN_ok_inv h; exact step_msh tbl f ih hr
-    | args p => obtain ⟨a, p1, hr, rfl⟩ := toOutA_ok_inv h; exact step_args tbl f ih hr
-    | prhs bp p => obtain ⟨n, p1, hr, rfl⟩ := toOutN_ok_inv h; exact step_prhs tbl f ih hr
-    | filter l p => obtain ⟨n, p1, hr, rfl⟩ := toOutN_ok_inv h; exact step_filter tbl f ih hr
-    | pis l r p => obtain ⟨n, p1, hr, rfl⟩ := toOutN_ok_inv h; exact step_pis tbl f ih hr
+    | expr bp p => obtain ⟨n, p1, hr, rfl⟩ := toOutN_ok_inv h; exact inv_expr tbl f ih hr
+    | loop bp l p => obtain ⟨n, p1, hr, rfl⟩ := toOutN_ok_inv h; exact inv_loop tbl f ih hr
+    | nud t p => obtain ⟨n, p1, hr, rfl⟩ := toOutN_ok_inv h; exact inv_nud tbl f ih hr
+    | led ty l p => obtain ⟨n, p1, hr, rfl⟩ := toOutN_ok_inv h; exact inv_led tbl f ih hr
+    | dot bp p => obtain ⟨n, p1, hr, rfl⟩ := toOutN_ok_inv h; exact inv_dot tbl f ih hr
+    | msl p acc => obtain ⟨n, p1, hr, rfl⟩ := toOutN_ok_inv h; exact inv_msl tbl f ih hr
+    | msh p acc => obtain ⟨n, p1, hr, rfl⟩ := toOutN_ok_inv h; exact inv_msh tbl f ih hr
+    | args p => obtain ⟨a, p1, hr, rfl⟩ := toOutA_ok_inv h; exact inv_args tbl f ih hr
+    | prhs bp p => obtain ⟨n, p1, hr, rfl⟩ := toOutN_ok_inv h; exact inv_prhs tbl f ih hr
+    | filter l p => obtain ⟨n, p1, hr, rfl⟩ := toOutN_ok_inv h; exact inv_filter tbl f ih hr
+    | pis l r p => obtain ⟨n, p1, hr, rfl⟩ := toOutN_ok_inv h; exact inv_pis tbl f ih hr
 
 /-- What `parseTokens` accepts, relationally: a successful parse is a
     derivation of the whole token list at level `top` that stops at `eof`. -/
